@@ -316,6 +316,12 @@ def property_failure(kind, a, b, ops):
         bad = orc.check(after)
         if bad:
             return (i, bad, 'view disagrees with the set of inserted edges')
+        if kind != 'bipartite':
+            try:
+                if list(G.vertices()) != list(range(1, orc.n + 1)) or G.order() != orc.n or len(G) != orc.n:
+                    return (i, 'order', 'vertices() / order() / len() disagree with the vertex count')
+            except Exception as e:  # noqa
+                return (i, 'order', 'vertices() raised %s' % type(e).__name__)
         # the edge-list object: len() and `in`
         try:
             el = G.edges()
@@ -539,7 +545,7 @@ def report(ctx, kind, a, b, ops, diff, propfail):
 # --------------------------------------------------------------------------------------------
 # networkx round trip
 # --------------------------------------------------------------------------------------------
-def nx_roundtrip_failure(kind, G, orc):
+def nx_roundtrip_failure(kind, G, orc, rng=None):
     """None or a description: to_networkx must show vertices/edges of the oracle, from_networkx(to_networkx) all views"""
     import networkx
     try:
@@ -572,7 +578,25 @@ def nx_roundtrip_failure(kind, G, orc):
     bad = orc.check(snapshot(G2, kind))
     if bad:
         return 'from_networkx(to_networkx(G)): view %s' % bad
-    # a shuffled copy of the networkx graph (other insertion order) must convert to the same object
+    # the same networkx graph built with the edges in another order and (undirected) the other orientation
+    # must convert to the same object (theorems C16_*_networkx, general form)
+    if rng is not None:
+        Y = networkx.DiGraph() if kind == 'directed' else networkx.Graph()
+        for u in X.nodes():
+            Y.add_node(u, **X.nodes[u])
+        es = list(X.edges())
+        rng.shuffle(es)
+        for (u, v) in es:
+            if kind != 'directed' and rng.random() < 0.5:
+                u, v = v, u
+            Y.add_edge(u, v)
+        try:
+            G3 = type(G).from_networkx(Y)
+        except Exception as e:  # noqa
+            return 'from_networkx(reordered copy) raised %s' % type(e).__name__
+        bad = orc.check(snapshot(G3, kind))
+        if bad:
+            return 'from_networkx(reordered copy): view %s' % bad
     return None
 
 
@@ -695,8 +719,12 @@ def check_case(ctx, kind, a, b, ops, rep):
 def run(ctx):
     import_impl()
     quick = ctx.tier == 'quick'
+    ctx.assumptions.append('theorems quantify over integer (Z) arguments of any value; non-integer arguments are outside the model '
+                           'and are exercised only by the malformed stream against the oracle')
+    ctx.assumptions.append('add_edges_from is read as the loop of add_edge calls it is: at the first refused edge it raises ValueError '
+                           'and keeps the edges inserted before it (theorems C16_*_add_edges_from)')
     rng = ctx.rng
-    nseq = 260 if quick else 2600
+    nseq = 450 if quick else 7500
 
     # ---- API surface assumed by the model -------------------------------------------------
     expect = {'simple': {'remove_edge': True, 'update_vertex_number': True},
@@ -749,7 +777,7 @@ def run(ctx):
                 rt_jobs.append((kind, a, b, ops))
 
     # ---- networkx round trip -----------------------------------------------------------------
-    rt_jobs = rt_jobs if not quick else rt_jobs[:150]
+    rt_jobs = rt_jobs if not quick else rt_jobs[:250]
     rt_replies = ctx.model.batch([model_req(k, a, b, ops, 'graph_roundtrip') for (k, a, b, ops) in rt_jobs])
     for (kind, a, b, ops), rep in zip(rt_jobs, rt_replies):
         it = impl_trace(kind, a, b, ops)
@@ -759,7 +787,7 @@ def run(ctx):
             orc.apply(op, has_method(kind, op))
         ctx.count('networkx-roundtrip', (kind, a, b, json.dumps(jsonable_ops(ops))), len(orc.E) > 0,
                   sample=dict(kind=kind, initial=[a, b], edges=[list(e) for e in sorted(orc.E)][:10]))
-        fail = nx_roundtrip_failure(kind, G, orc)
+        fail = nx_roundtrip_failure(kind, G, orc, rng)
         desc = dict(kind=kind, initial=[a, b], ops=jsonable_ops(ops), then='from_networkx(to_networkx())')
         if fail:
             ctx.disagreements_checked += 1
@@ -790,7 +818,7 @@ def run(ctx):
                           site=CLSNAME[kind] + '.networkx', cls='model:' + bad[0])
 
     # ---- malformed arguments -------------------------------------------------------------------
-    run_malformed(ctx, 400 if quick else 4000)
+    run_malformed(ctx, 600 if quick else 8000)
     ctx.exhaustive = False
 
 
